@@ -378,6 +378,24 @@ def run_castable(spec, out):
             exp = lay.from_bits(lay.const(x).as_bits())
             if got != exp or got.a != x["a"] or got.e != x["e"] or got.s[1] != x["s"][1]:
                 viol.append({"mechanism": "castable-roundtrip:struct", "detail": {"x": repr(x), "got": repr(got)}})
+            # field values that are already constants, of the field's width or narrower / wider / signed: each is
+            # assigned to its field like any value (truncated or extended by its own signedness), neighbours untouched
+            from amaranth.hdl import Const, Shape
+            av, cw, csg = rng.randrange(-8, 16), rng.choice([1, 2, 3, 4, 6]), rng.random() < 0.5
+            ca = Const(av, Shape(cw, csg))
+            s0 = Const(rng.randrange(-4, 8), Shape(rng.choice([1, 2, 3]), rng.random() < 0.5))
+            y = {"a": ca, "e": x["e"], "s": [s0, x["s"][1]]}
+            order = list(y)
+            rng.shuffle(order)
+            ctx.set(sig_l, {k: y[k] for k in order})
+            from amaranth.hdl import Value
+            raw = ctx.get(Value.cast(sig_l))
+            want = (ca.value & 7) | (x["e"].value << 3) | ((s0.value & 3) << 6) | (x["s"][1] << 8)
+            out["evaluations"] += 1
+            if raw != want:
+                viol.append({"mechanism": "castable-write-with-constant-field-values",
+                             "detail": {"written": repr(y), "order": order, "bits_read": raw, "bits_expected": want}})
+                return
             e = rng.choice(list(E))
             ctx.set(sig_e, e)
             g = ctx.get(sig_e)
